@@ -189,6 +189,35 @@ class Wat(Plain):
         _effect(self, eff, 'pbound', events)
 
 
+class Hand(Wat):
+    """keeps the HANDLES returned by param.watch in ordinary attributes (the list `handles`, the first one also as
+    `_handle`) and uses them later on -- param.unwatch, unwatch + watch again -- after it has been copied"""
+
+
+class Cb(Plain):
+    """copies taken from inside watcher callbacks of every kind: `derive` changes another watched parameter (y) from
+    inside a callback on x, `checkpoint` is the callback from inside which the copy is taken (watching x or y),
+    `on_y` / `on_z` log what is announced; all registered with param.watch (queued or not, explicit precedence) by
+    the context (see `_cb_register`)"""
+    x = param.Number(default=0)
+    y = param.Number(default=0)
+    z = param.Number(default=0)
+
+    def derive(self, *events):
+        self.calls.append(('derive', [e.name for e in events]))
+        self.y = self.y + 10
+
+    def checkpoint(self, *events):
+        self.calls.append(('checkpoint', [e.name for e in events]))
+        _hook(self, 'checkpoint')
+
+    def on_y(self, *events):
+        self.calls.append(('on_y', [(e.name, e.old, e.new) for e in events]))
+
+    def on_z(self, *events):
+        self.calls.append(('on_z', [(e.name, e.old, e.new) for e in events]))
+
+
 # ordinary attributes to be set by Attr.__init__ BEFORE Parameterized.__init__ runs: [(name, value kind)]
 _EARLY = []
 
@@ -259,7 +288,7 @@ def fn_watch(*events):
 
 
 CLASSES = {'Plain': Plain, 'Main': Main, 'Multi': Multi, 'Wat': Wat, 'Attr': Attr, 'SlotFirst': SlotFirst, 'SlotLast': SlotLast, 'SlotDeep': SlotDeep,
-           'SlotSub': SlotSub}
+           'SlotSub': SlotSub, 'Hand': Hand, 'Cb': Cb}
 SLOT_CLASSES = ('SlotFirst', 'SlotLast', 'SlotDeep', 'SlotSub')
 
 
@@ -710,15 +739,150 @@ WAT_POST_FIXED = {'setp': op_setp, 'setq': op_setq, 'upd2': op_upd2, 'updqp': op
 WAT_POST_W = (w_op('meth', 'add1', 1, 'p'), w_op('pbound', 'mul2', 0, 'pq'))
 WAT_POST = tuple(WAT_POST_FIXED) + WAT_POST_W
 
+# ---- family "watcher handles kept by the object and used after the copy" (class Hand) --------------------------------
+# operation  h:<shape>.<effect>@<precedence>:<parameters>   like `w:` but the object KEEPS the handle that param.watch
+#            returns (appended to the ordinary attribute `handles`; the first one is also bound to `_handle`);
+#            hq:...  the same with queued=True
+#   post     unw:<k>   param.unwatch with the k-th handle the object holds (the callback must stop, once and for all)
+#            rew:<k>   unwatch the k-th handle and register the same callback again (same parameters, precedence,
+#                      queued), keeping the new handle in the same place
+#            unwa      unwatch `_handle` (the single attribute), then every handle of `handles` that is still registered
+#   Nothing of this raises when it fails (param.unwatch only logs a warning): the effect is observed through the
+#   invocation logs of the assignments that follow.
+def _keep(o, h):
+    if 'handles' not in o.__dict__:
+        o.handles = []
+        o._handle = h
+    o.handles.append(h)
+
+
+def op_h(o, arg, queued=False):
+    shape, eff, prec, params = parse_w(arg)
+    if not isinstance(o, Hand):
+        return SKIP
+    cb = make_callback(o, shape, eff)
+    return _try(lambda: _keep(o, o.param.watch(cb, list(params), precedence=prec, queued=queued)))
+
+
+def op_hq(o, arg):
+    return op_h(o, arg, True)
+
+
+def h_op(shape, eff='add1', prec=0, params='p', queued=False):
+    return ('hq:' if queued else 'h:') + w_op(shape, eff, prec, params)[2:]
+
+
+def op_unw(o, arg):
+    hs = o.__dict__.get('handles', [])
+    if int(arg) >= len(hs):
+        return SKIP
+    return _try(lambda: o.param.unwatch(hs[int(arg)]))
+
+
+def op_rew(o, arg):
+    hs = o.__dict__.get('handles', [])
+    k = int(arg)
+    if k >= len(hs):
+        return SKIP
+
+    def f():
+        h = hs[k]
+        o.param.unwatch(h)
+        hs[k] = o.param.watch(h.fn, list(h.parameter_names), precedence=h.precedence, queued=h.queued)
+    return _try(f)
+
+
+def op_unwa(o):
+    hs = o.__dict__.get('handles', [])
+    if not hs:
+        return SKIP
+
+    def f():
+        o.param.unwatch(o._handle)
+        for h in hs[1:]:
+            o.param.unwatch(h)
+    return _try(f)
+
+
+HAND_PRE_OPS = {'h': op_h, 'hq': op_hq, 'set': pre_set, 'attach': pre_attach}
+HAND_POST_OPS = {'unw': op_unw, 'rew': op_rew, 'unwa': op_unwa, 'setp': op_setp, 'setq': op_setq, 'upd2': op_upd2,
+                 'trigp': op_trigp}
+HAND_POST = ('unw:0', 'unw:1', 'rew:0', 'unwa', 'setp', 'setq', 'upd2', 'trigp')
+
+
+# ---- family "copies taken from inside watcher callbacks of every kind" (class Cb) -----------------------------------
+# context   cb.<fire>.<order>.<D>.<C>.<Y>
+#   fire    set (o.x = ..) | upd (param.update(x=.., z=..)) | trig (param.trigger('x')) | batch (assignment of x inside
+#           batch_call_watchers)
+#   D       deriving watcher on x (its callback assigns y, another watched parameter):  q|n (queued or not) + precedence
+#   C       copying watcher (the copy is taken from inside its callback):  q|n + precedence + watched parameter x|y
+#   order   dc | cd  registration order of D and C (decides ties of precedence)
+#   Y       q|n  whether the logging watcher of y is queued
+def cb_ctx(fire, order, dq, dp, cq, cp, ct, yq):
+    return 'cb.%s.%s.%s%d.%s%d%s.%s' % (fire, order, dq, dp, cq, cp, ct, yq)
+
+
+def _cb_register(o, ctx):
+    fire, order, D, C, Y = ctx.split('.')[1:]
+    reg = {'d': lambda: o.param.watch(o.derive, ['x'], queued=D[0] == 'q', precedence=int(D[1])),
+           'c': lambda: o.param.watch(o.checkpoint, [C[2]], queued=C[0] == 'q', precedence=int(C[1]))}
+    for k in order:
+        reg[k]()
+    o.param.watch(o.on_y, ['y'], queued=Y == 'q')
+    o.param.watch(o.on_z, ['z'])
+    return fire
+
+
+def _cb_fire(o, fire):
+    if fire == 'set':
+        o.x = o.x + 1
+    elif fire == 'upd':
+        o.param.update(x=o.x + 1, z=o.z + 1)
+    elif fire == 'trig':
+        o.param.trigger('x')
+    else:
+        with param.parameterized.batch_call_watchers(o):
+            o.x = o.x + 1
+
+
+def op_setx(o):
+    return _set(o, 'x', o.x + 1)
+
+
+def op_sety(o):
+    return _set(o, 'y', o.y + 1)
+
+
+def op_setz(o):
+    return _set(o, 'z', o.z + 1)
+
+
+def op_updxz(o):
+    return _try(lambda: o.param.update(x=o.x + 1, z=o.z + 1))
+
+
+def op_samexyz(o):
+    """assign the current values again: nothing changes, nothing may be announced"""
+    return _set(o, 'x', o.x) + ',' + _set(o, 'y', o.y) + ',' + _set(o, 'z', o.z)
+
+
+def op_trigz(o):
+    return _try(lambda: o.param.trigger('z'))
+
+
+CB_PRE_OPS = {'set': pre_set, 'watch': pre_watch}
+CB_POST_OPS = {'setz': op_setz, 'setx': op_setx, 'sety': op_sety, 'updxz': op_updxz, 'samexyz': op_samexyz,
+               'trigz': op_trigz}
+
 # the alphabets of the slotted model classes (the other operations are covered on Plain / Main)
 SLOT_PRE_OPS = {'slot': pre_slot, 'slotpart': pre_slotpart, 'attr': pre_attr, 'set': pre_set, 'watch': pre_watch}
 SLOT_POST_OPS = {'slot': post_slot, 'attr': post_attr, 'set': post_set, 'mut': post_mut}
 _ALL_PRE = dict(PRE_OPS, **SLOT_PRE_OPS)
 _ALL_POST = dict(POST_OPS, **SLOT_POST_OPS)
-for _t in (ATTR_PRE_OPS, MULTI_PRE_OPS, CTX_PRE_OPS, WAT_PRE_OPS):
+for _t in (ATTR_PRE_OPS, MULTI_PRE_OPS, CTX_PRE_OPS, WAT_PRE_OPS, HAND_PRE_OPS, CB_PRE_OPS):
     for _k, _f in _t.items():
         assert _ALL_PRE.setdefault(_k, _f) is _f, _k
-for _t in (ATTR_POST_OPS, MULTI_POST_OPS, CTX_POST_OPS, WAT_POST_FIXED, {'w': op_w}):
+for _t in (ATTR_POST_OPS, MULTI_POST_OPS, CTX_POST_OPS, WAT_POST_FIXED, {'w': op_w}, HAND_POST_OPS, CB_POST_OPS):
     for _k, _f in _t.items():
         assert _ALL_POST.setdefault(_k, _f) is _f, _k
 
@@ -1079,7 +1243,11 @@ def in_context(o, ctx, at_copy):
             o.v = 7
             point(o)
     else:
-        where, fire = _CB[ctx]
+        if ctx.startswith('cb.'):
+            kind = _cb_register(o, ctx)
+            where, fire = 'checkpoint', (lambda x: _cb_fire(x, kind))
+        else:
+            where, fire = _CB[ctx]
 
         def hook(x, w):
             if x is o and w == where and not done:
@@ -1108,14 +1276,40 @@ def ctx_reference(cname, pre, post):
     r, _ = build(cname, pre)
     if r is None:
         return None
-    marks = []
-    if not in_context(r, ctx, lambda x: marks.append(snap(x))):
+    marks, raw = [], []
+    if not in_context(r, ctx, lambda x: (marks.append(snap(x)), raw.append(copy.deepcopy(x.calls)))):
         return None
     e_end = snap(r)
     ref_out = apply_post(r, post)
     if ref_out is None:
         return None
+    if ctx.startswith('cb.'):
+        return marks[0], e_end, ref_out, snap(r), idle_reference(cname, pre, post, marks[0], raw[0])
     return marks[0], e_end, ref_out, snap(r)
+
+
+def idle_reference(cname, pre, post, e_at, log_at):
+    """Family Cb: the callbacks still to be run at the copy point change parameter values, so 'the calls pending at
+    the copy point are not made on the copy' cannot be read off the never-copied object that finished its dispatch.
+    The expectation is a never-copied, IDLE object in the state of the copy point: a fresh object taken through
+    the pre-history, given the values x, y, z of the copy point by plain assignments before any watcher of them
+    exists, then the same watchers (same registration order), and the invocation log of the copy point.
+    Returns (outcomes of `post`, snapshot after `post`); None if the construction does not give the copy-point state
+    (then only the other reading is available)."""
+    ctx = cname.partition('@')[2]
+    r, _ = build(cname, pre)
+    if r is None:
+        return None
+    for n in ('x', 'y', 'z'):
+        setattr(r, n, e_at['values'][n])
+    _cb_register(r, ctx)
+    r.calls[:] = log_at
+    if diff(e_at, snap(r)):
+        return None
+    out = apply_post(r, post)
+    if out is None:
+        return None
+    return out, snap(r)
 
 
 def run_ctx_scenario(cname, pre, mech, post, ref):
@@ -1126,6 +1320,9 @@ def run_ctx_scenario(cname, pre, mech, post, ref):
     the calls that were still pending at the copy point (made by the original between the copy point and the
     end of the context) may or may not be made on the copy."""
     ctx = cname.partition('@')[2]
+    idle = None
+    if len(ref) == 5:
+        idle, ref = ref[4], ref[:4]
     e_at, e_end, ref_out, e_post = ref
     L0, L1, L2 = _calls(e_at), _calls(e_end), _calls(e_post)
     pending, later = L1[len(L0):], L2[len(L1):]
@@ -1184,12 +1381,16 @@ def run_ctx_scenario(cname, pre, mech, post, ref):
     except Exception as e:
         return [('C17/after/faithful', 'exception:' + type(e).__name__, 'copy',
                  'history %r on the copy raised %s: %s' % (list(post), type(e).__name__, e))]
-    if out != ref_out:
+    if out != ref_out and not (idle is not None and out == idle[0]):
         res.append(('C17/after/faithful', 'outcomes', 'copy', 'outcomes of %r on the copy are %r, on an uncopied '
                     'object %r' % (list(post), out, ref_out)))
     sc = snap(c)
     exp_dropped = _with_calls(e_post, L0 + later)          # pending calls not made on the copy
     exp_delivered = e_post                                   # pending calls made on the copy before `post`
+    if idle is not None:
+        exp_dropped = idle[1]                                # (family Cb: an idle object in the copy-point state)
+    elif ctx.startswith('cb.'):
+        exp_dropped = sc                                     # (no idle reference could be built: nothing to compare)
     d = diff(exp_dropped, sc)
     if d and diff(exp_delivered, sc):
         res.append(('C17/after/faithful', _dpath(d, exp_dropped, sc), 'copy', 'after %r on the copy taken inside '
